@@ -22,6 +22,15 @@ from .values import (
 )
 
 
+def _has_yield(fnode):
+    for st in fnode.body:
+        for n in ast.walk(st):
+            if isinstance(n, (ast.Yield, ast.YieldFrom)):
+                return True
+            # nested defs have their own scope -- ast.walk descends into them, which only over-approximates
+    return False
+
+
 class _Return(Exception):
     def __init__(self, v):
         self.v = v
@@ -255,6 +264,9 @@ class Interp:
         return None
 
     def external_value(self, ctx, dotted):
+        if dotted in ("math.pi", "torch.pi", "numpy.pi"):
+            from .dom_real import pi
+            return VNum(pi(ctx))
         if dotted in self.optable:
             self.optable_log.add(dotted)
             e = self.optable[dotted]
@@ -357,6 +369,12 @@ class Interp:
         r = self.ext_base_attr(ctx, obj, name, obj.cls.external_bases())
         if r is not None:
             return r
+        for ext in obj.cls.external_bases():
+            key = f"{ext}.__getattr__"
+            if key in self.optable:
+                r = self.optable[key](self, ctx, [obj, VStr(name)], {})
+                if r is not None:
+                    return r
         ga = obj.cls.find_method("__getattr__")
         if ga is not None:
             return self.call_function(ctx, ga, [obj, VStr(name)], {})
@@ -383,14 +401,22 @@ class Interp:
         fi = obj.cls.find_method(name)
         if fi is not None and fi.is_property:
             raise PyRaise(VExc("AttributeError", f"can't set attribute {name}"))
-        sa = obj.cls.find_method("__setattr__")
-        if sa is not None and not getattr(obj, "_in_setattr", False):
-            obj._in_setattr = True
-            try:
-                self.call_function(ctx, sa, [obj, VStr(name), v], {})
-            finally:
-                obj._in_setattr = False
-            return
+        if not getattr(obj, "_in_setattr", False):
+            # first __setattr__ in MRO order (extracted classes and op-table models of external bases alike)
+            for cbase in obj.cls.mro():
+                if isinstance(cbase, ClassInfo):
+                    if "__setattr__" in cbase.methods:
+                        obj._in_setattr = True
+                        try:
+                            self.call_function(ctx, cbase.methods["__setattr__"], [obj, VStr(name), v], {})
+                        finally:
+                            obj._in_setattr = False
+                        return
+                else:
+                    key = f"{cbase}.__setattr__"
+                    if key in self.optable:
+                        self.optable[key](self, ctx, [obj, VStr(name), v], {})
+                        return
         obj.fields[name] = v
         ctx.note_write(("field", obj.label, name))
 
@@ -531,6 +557,17 @@ class Interp:
         try:
             if isinstance(fi.node, ast.Lambda):
                 return self.eval(ctx, fi.node.body, env)
+            is_gen = getattr(fi, "_is_gen", None)
+            if is_gen is None:
+                is_gen = fi._is_gen = _has_yield(fi.node)
+            if is_gen:
+                # generator functions are run to completion and their yields collected (finite generators only)
+                env.vars["__yields__"] = []
+                try:
+                    self.exec_block(ctx, fi.node.body, env)
+                except _Return:
+                    pass
+                return VList(env.vars["__yields__"])
             try:
                 self.exec_block(ctx, fi.node.body, env)
             except _Return as r:
@@ -894,6 +931,22 @@ class Interp:
             raise Undecided(f"expression {type(node).__name__} (line {getattr(node, 'lineno', '?')})")
         return m(ctx, node, env)
 
+    def _yield_list(self, env):
+        e = env
+        while e is not None:
+            if "__yields__" in e.vars:
+                return e.vars["__yields__"]
+            e = e.parent
+        raise Undecided("yield outside generator")
+
+    def e_Yield(self, ctx, node, env):
+        self._yield_list(env).append(self.eval(ctx, node.value, env) if node.value is not None else NONE)
+        return NONE
+
+    def e_YieldFrom(self, ctx, node, env):
+        self._yield_list(env).extend(self.iterate(ctx, self.eval(ctx, node.value, env)))
+        return NONE
+
     def e_Constant(self, ctx, node, env):
         return from_py(node.value)
 
@@ -999,6 +1052,12 @@ class Interp:
 
     def cmp1(self, ctx, op, a, b):
         """-> python bool or z3 Bool"""
+        if isinstance(op, (ast.Eq, ast.NotEq)) and (getattr(a, "kind", "") == "tensor" or getattr(b, "kind", "") == "tensor"):
+            t, o = (a, b) if getattr(a, "kind", "") == "tensor" else (b, a)
+            if o is NONE or isinstance(o, (VStr, VAtom, VTuple, VList)):
+                return isinstance(op, ast.NotEq)
+            m = t.py_getattr(self, ctx, "eq" if isinstance(op, ast.Eq) else "ne")
+            return m.py_call(self, ctx, [o], {})
         if isinstance(op, (ast.Eq,)):
             return self.eq(ctx, a, b)
         if isinstance(op, ast.NotEq):
